@@ -144,7 +144,7 @@ var stdInit = map[string]bool{
 	"errors": true, "io": true, "encoding/binary": true, "strconv": true, "strings": true,
 	"bytes": true, "unicode": true, "unicode/utf8": true, "time": true, "sort": true,
 	"math": true, "math/bits": true, "net": true, "slices": true, "encoding/hex": true,
-	"net/netip": true, "io/fs": true,
+"io/fs": true,
 }
 
 var noInitThirdParty = []string{
